@@ -62,11 +62,13 @@ def call_builtin(engine, st, fr, name, args, kwargs, star, starkw, node):
                 obj = t.arg(0)
                 st.assume(z3.Implies(z3.And(has_attr(obj, adc), is_callable(t)), engine.ty_formula(st, obj, "future")))
                 engine.touch_future(st, Val.id(obj))
+            st.assume(z3.Implies(is_callable(t), Val.is_ref(t)))      # None, numbers, bools and strings are not callable
             yield st, Z(is_callable(t), "bool")
     elif name in ("getattr", "hasattr"):
         obj, an = a[0], a[1]
         if not isinstance(an, str):
             raise Unsupported("getattr with symbolic name")
+        obj = engine.refine_any(st, obj, an)
         has = b_cont.object_has_attr(engine, st, obj, an)
         if name == "hasattr":
             yield st, (has if isinstance(has, bool) else Z(has, "bool"))
@@ -109,7 +111,9 @@ def call_builtin(engine, st, fr, name, args, kwargs, star, starkw, node):
         for r in _minmax(engine, st, fr, name, a, node):
             yield r
     elif name == "getLogger":
-        yield st, Z(ref(700000 + STRINGS.get("logger:%s" % (a[0] if a and isinstance(a[0], str) else "root"))), "logger")
+        t = ref(700000 + STRINGS.get("logger:%s" % (a[0] if a and isinstance(a[0], str) else "root")))
+        st.assume(cls_of(Val.id(t)) == engine.tag("Logger"))
+        yield st, Z(t, "logger")
     elif name == "weakref.ref":
         oid = st.alloc("weakref")
         st.assume(cls_of(z3.IntVal(oid)) == engine.tag("weakref"))
